@@ -83,6 +83,8 @@ def run_gen(ctx, rep, rules, only_par=False, only_tags=None, floors=None):
                 gen_rules.check_G6(pg, rep, ctx)
             elif r == 'G3r':
                 gen_rules.check_G3r(pg, rep)
+            elif r == 'G12':
+                gen_rules.check_G12(pg, rep)
             elif r == 'G10':
                 gen_rules.check_G10(pg, rep)
             else:
